@@ -573,6 +573,11 @@ lemma("pinv_fullcol", [a], z3.Implies(fullcol(a), z3.And(invok(mmul(cj(tr(a)), a
       [[fullcol(a), pinvm(a)]], AS + "left inverse of a full-column-rank matrix (Ben-Israel & Greville, Thm 1.5)")
 lemma("invok_smul_intro", [x, y, a], z3.Implies(z3.And(invok(a), z3.Or(x != 0, y != 0)), invok(smul(x, y, a))), [[invok(a), smul(x, y, a)]], ML + "Matrix.det_smul / IsUnit.smul")
 lemma("pinv_eye", [n], pinvm(eye(n)) == eye(n), [pinvm(eye(n))], "I satisfies the Penrose equations for I")
+# structure of the pseudo-inverse (so that a correct factor-wise pinv rule for Kronecker / BlockDiag operands, should one be added, discharges instead of raising an alarm)
+lemma("pinv_kron", [a, b], pinvm(kron(a, b)) == kron(pinvm(a), pinvm(b)), [pinvm(kron(a, b))],
+      AS + "(A (x) B)^+ = A^+ (x) B^+: the four Penrose equations follow from the mixed-product and conjugate-transpose rules (Horn & Johnson, Topics, 4.2; Langville & Stewart 2004)")
+lemma("pinv_bd", [a, b], pinvm(bd(a, b)) == bd(pinvm(a), pinvm(b)), [pinvm(bd(a, b))], AS + "block diagonal: the Penrose equations hold block by block")
+lemma("pinv_rep", [a, n], z3.Implies(n >= 1, pinvm(rep(a, n)) == rep(pinvm(a), n)), [pinvm(rep(a, n))], AS + "same, repeated block")
 
 DEFAULT_GROUPS = ("dims", "ring", "tr", "inv", "det", "pred", "mixed", "fn", "diag")
 OPT_IN = set()            # extra groups a property module switches on for its own run (e.g. {"pinv"})
